@@ -39,6 +39,11 @@ def generate_matrix(seed, idx):
         op.pop('variants', None)
         op.pop('fault', None)
         case['history'].append(op)
+    if rng.random() < 0.25:
+        # the caller reconfigures one of its tokenizers before the bad call
+        rt = gen.gen_retune(g)
+        if rt:
+            case['history'].append(rt)
     for attempt in range(8):
         op = genreject.gen_reject_cell(g, cell)
         if op is not None:
